@@ -104,7 +104,8 @@ def work(chunk):
             try:
                 if cfg['policy'][0] == 'model':
                     from harness import replay
-                    r = replay.replay_graph(prog, max_paths=cfg['policy'][1], collect=True, cancel=len(cfg['policy']) > 2)
+                    r = replay.replay_graph(prog, max_paths=cfg['policy'][1], collect=True, cancel=len(cfg['policy']) > 2,
+                                            collab=cfg.get('mcollab'))
                     if cfg.get('liveness'):
                         from harness import model as _model
                         lv = _model.check_liveness(_model.export_instance(prog))
@@ -322,6 +323,17 @@ def build_jobs(pid, tier, seed):
             else:
                 # C02 additionally as a liveness property (fair loop => the run ends), every 4th instance when quick
                 j[2].append(dict(policy=['model', 400 if quick else 100000], liveness=(pid == 'C02' and (not quick or k % 4 == 0))))
+    if pid in ('C04', 'C14', 'C19', 'C13'):
+        # the same with event callbacks and saves that really suspend: every `await emit_...` / `await save` of the
+        # model becomes a scheduling point (check-then-act windows, cancellation inside a collaborator call)
+        lim = 45 if quick else 250
+        for j in jobs:
+            sz = sizes.get(j[0])
+            if sz is None or sz > lim or programs.is_ambiguous(j[1]) or any(r.get('recseq') for r in j[1]['runs']):
+                continue
+            mc = {'ev': 'yield', 'save': 'yield'} if sz <= 45 else {'ev': 'yield'}
+            pol = ['model', 300 if quick else 100000] + (['cancel'] if pid == 'C13' and sz <= 30 else [])
+            j[2].append(dict(policy=pol, mcollab=mc))
     for p in random_programs(pid, tier, seed):
         if pid == 'C13':
             cfgs = cancel_cfgs(seed, 1 if quick else 3, 60, 4 if quick else 1) + base_cfgs(seed, 2, 0)
